@@ -8,7 +8,7 @@
    any more but still have their parent role); creation failing at any stage (oracle field c_fail,
    launch and CONFIGURE outcomes per role); DESTROY / after_DESTROY hooks (calls and tasks) at any
    weights.  "Owned" in the conclusions is the parent link (GetEnvironmentId), not the locked flag. *)
-From Verif Require Import Gen_DoKill Common Ownership Teardown OwnSpec OwnInv_proofs OwnThm_proofs.
+From Verif Require Import Gen_DoKill Gen_PendReg Common Ownership Teardown OwnSpec OwnInv_proofs OwnThm_proofs PendReg PendReg_proofs.
 Open Scope N_scope.
 
 (* --- destroy, full statement: a destroy that returned success leaves the environment unlisted and no
@@ -86,6 +86,24 @@ Theorem C06_kill_failure_is_local :
   (forall r t, In t r -> is_locked t = false -> kill_refused t = false -> In (t_id t) (snd (cleanup r))).
 Proof. exact kill_failure_is_local. Qed.
 Print Assumptions C06_kill_failure_is_local.
+
+
+(* --- "its pending hook calls have been cancelled" rests on the registry of pending calls (await trigger ->
+       weight -> calls) that the teardown walks: whatever calls were started, under whatever await triggers
+       and weights, in whatever order, every one of them is in the registry the teardown walks.  How
+       handleHooks registers a call is read off the source (gen/Gen_PendReg.v). *)
+Theorem C06_teardown_reaches_every_started_call : forall l r x,
+  In x (map snd l) -> In x (all_calls (register_all l r)).
+Proof. exact teardown_reaches_every_started_call. Qed.
+Print Assumptions C06_teardown_reaches_every_started_call.
+
+(* --- a registration that stores a fresh per-trigger map whenever the (trigger, weight) slot is empty loses
+       the call pending under another weight (seeded change C06-6; replayed on the implementation as corpus
+       case pending-two-await-weights). *)
+Theorem C06_careless_registration_refuted :
+  all_calls (register_mode false 0 10%Z 2 (register_mode false 0 0%Z 1 [])) = [2].
+Proof. exact careless_registration_refuted. Qed.
+Print Assumptions C06_careless_registration_refuted.
 
 (* --- "DESTROY hooks run only after the other tasks were released": in every consistent state (every
        reachable state is one — next theorem — and so is every intermediate state inside a request,
